@@ -52,15 +52,47 @@ def run_case(case):
     step = max(1, rl // case["depth"])
     cp = [(c, m) for c, m, _, _ in copies]
     S, KS, GS, P, E = (os.path.join(d, n) for n in ("s.bam", "ks.bam", "gs.bam", "p.bam", "e.bam"))
-    sim.sample(S, cp, rl, step)
-    sim.sample(KS, cp, rl, step, neutral_k=2 * k, gene_k=k)
-    sim.sample(GS, cp, rl, step, neutral_k=2, gene_k=k)
-    sim.sample(P, [("1", frozenset())] * 2, rl, step)
-    sim.write(E, sim.sample_reads(cp, rl, step, skip=("neutral",)))
+    # extra reads with deletions / insertions / soft clips / =,X inside the neutral window and inside the locus: depth
+    # normalisation must treat them the same way in the profile, in the neutral depth and in the region depths
+    import random as _r
+
+    rg = _r.Random(case["sim_seed"] + 9)
+    wide = gene.get_wide_region()
+
+    def odd_reads(tag, lo_, hi_, n):
+        out = []
+        for i in range(n):
+            a = rg.randrange(lo_, max(lo_ + 1, hi_ - 60))
+            l1, d, l2 = rg.randrange(10, 30), rg.randrange(1, 9), rg.randrange(10, 30)
+            kind = rg.choice(["D", "I", "S", "D", "EQ"])
+            G = sim.genome
+            if kind == "D":
+                cig, seq = [(0, l1), (2, d), (0, l2)], G[a:a + l1] + G[a + l1 + d:a + l1 + d + l2]
+            elif kind == "I":
+                cig, seq = [(0, l1), (1, d), (0, l2)], G[a:a + l1] + "ACGTACGTA"[:d] + G[a + l1:a + l1 + l2]
+            elif kind == "S":
+                cig, seq = [(4, d), (0, l1 + l2)], "TTTTTTTTT"[:d] + G[a:a + l1 + l2]
+            else:
+                cig, seq = [(7, l1), (2, d), (7, l2)], G[a:a + l1] + G[a + l1 + d:a + l1 + d + l2]
+            out.append((f"{tag}{i}", a, cig, seq))
+        return out
+
+    n_odd = case.get("odd", 0)
+    odd_neutral = odd_reads("on", lo + 5, lo + ln - 5, n_odd)
+    odd_gene = odd_reads("og", wide.start + 5, wide.end - 5, n_odd)
+
+    def dup(reads, times):
+        return [(f"{nm}x{t}", p_, c_, s_) for (nm, p_, c_, s_) in reads for t in range(times)]
+
+    sim.write(S, sim.sample_reads(cp, rl, step) + odd_neutral + odd_gene)
+    sim.write(KS, sim.sample_reads(cp, rl, step, neutral_k=2 * k, gene_k=k) + dup(odd_neutral, k) + dup(odd_gene, k))
+    sim.write(GS, sim.sample_reads(cp, rl, step, neutral_k=2, gene_k=k) + odd_neutral + dup(odd_gene, k))
+    sim.write(P, sim.sample_reads([("1", frozenset())] * 2, rl, step) + odd_neutral + odd_gene)
+    sim.write(E, sim.sample_reads(cp, rl, step, skip=("neutral",)) + odd_gene)
 
     struct = tuple(sorted(c for c, _, maj, _ in copies if maj is not None))
     labels = [f"k:{k}", f"strand:{gene.strand:+d}", f"pseudo:{len(gene.regions) - 1}", f"route:{case['route']}",
-              "default-structure" if struct == ("1", "1") else "non-default-structure"]
+              "default-structure" if struct == ("1", "1") else "non-default-structure", f"odd-cigar-reads:{case.get('odd', 0)}"]
     nontrivial = struct != ("1", "1") or k >= 3 or case["nshift"] > 0
 
     def profile(src):
@@ -112,6 +144,22 @@ def run_case(case):
                 bad[f"{gi}:{r}"] = (v, want, pd)
         if bad:
             viol.append(V(tag + "-not-2.0", diffs=dict(list(bad.items())[:4])))
+    # loading the same profile BAM with another neutral window in between must not change anything (no state between loads)
+    if case["route"] == "bam":
+        cnr2 = GRange(gene.chr, lo + 40, lo + 40 + max(60, ln // 2))
+        try:
+            Profile.load(gene, P, cnr2)
+            t_again = rc_table(gene, Sample(gene, Profile.load(gene, P, cnr), S))
+            bad = {str(key): (t_s[key], t_again[key]) for key in t_s if not close(t_s[key], t_again[key])}
+            if bad:
+                viol.append(V("profile-depends-on-earlier-load-with-another-neutral-region", diffs=dict(list(bad.items())[:4])))
+            sp2 = Profile.load(gene, P, cnr2)
+            t2 = rc_table(gene, Sample(gene, sp2, P))
+            bad = {f"{gi}:{r}": v for (gi, r), v in t2.items() if sp2.data[gene.name][r][gi] and not close(v, 2.0)}
+            if bad:
+                viol.append(V("self-profile-second-neutral-region-not-2.0", diffs=dict(list(bad.items())[:4])))
+        except AldyException as e:
+            viol.append(V("second-neutral-region-rejected", message=str(e)[:200]))
     # consequence: same structure call at any depth
     if gene.do_copy_number:
         labels.append("cn-called")
@@ -143,6 +191,7 @@ def strategy(tier):
         "nshift": st.sampled_from([0, 0, 37, 120, 333]),
         "nlen": st.sampled_from([1000, 400, 150, 777]),
         "route": st.sampled_from(["bam", "file"]),
+        "odd": st.sampled_from([0, 3, 8]),
         "sim_seed": st.integers(0, 10 ** 6),
     })
 
